@@ -17,7 +17,7 @@ pub fn prop() -> Prop {
         rule: "all streams of <=4 (thorough <=6) rows {k,v,id} over the group keys {\"a\",\"b\",\"\",\"é\",1,null,absent,\"ab\",\"null\",[\"a\"]} (including the empty stream and streams whose every row is dropped) x 15 upstream pipelines (--unique on a selection without the key; two selections under one name; take 35 and skip 3 take 100 among them; none, select, select of the key only (so that rows repeat), filter, unique, sort by id desc, sort by the mixed-type key, skip+take, split, take 0, select+sort+skip+take) x {--group-by=.k, --group-by=(get . \"k\"), --merge} x {json, text output}; long cyclic streams of 17, 40, 300 and 1100 rows; streams with 15..257 distinct keys each coming back; non-trivial = two rows share a key or a row is dropped for its key; distinct by construction",
         explanation: "exactly one value must be printed, after the input ended; it is compared (a) with the documented grouping applied to the rows the same pipeline prints without grouping (differential) and (b) with the reference pipeline",
         assumptions: COMMON_ASSUMPTIONS.to_vec(),
-        guards: vec!["many-distinct-keys", "empty-input", "no-row-survives", "non-string-key-dropped", "absent-key-dropped", "two-rows-share-a-key", "limiter-before-grouper", "empty-string-key", "non-ascii-key", "text-output"],
+        guards: vec!["command-line-respelled", "many-distinct-keys", "empty-input", "no-row-survives", "non-string-key-dropped", "absent-key-dropped", "two-rows-share-a-key", "limiter-before-grouper", "empty-string-key", "non-ascii-key", "text-output"],
         budget_s: (100, 2400),
         single_worker: false,
         run,
@@ -118,6 +118,7 @@ fn explore(ctx: &mut Ctx, up: &Up, rows: &[V]) {
             let case = Case::owned(args, pipeline::input_text(&inputs));
             let sig = format!("{} {gname} {}", up.name, if text { "text" } else { "json" });
             let obs = ctx.run(&case);
+            super::pipe::check_respelled(ctx, &case, &obs, &sig);
             ctx.case_done();
             ctx.trace_validated();
             ctx.state(&(up.name, *gname, json::to_text(&V::Arr(r.clone()))));
